@@ -25,6 +25,5 @@ m = json.load(open(p))
 m.setdefault('rechecks', []).extend(res.split())
 json.dump(m, open(p, 'w'), indent=1)
 PY
-( cd /verif && python3 tools/leafgen.py >/dev/null 2>&1 )
 # the private build areas of the experiments are not kept
-rm -rf /verif/build/exp_* 2>/dev/null
+python3 -c "import hashlib,shutil,sys; shutil.rmtree('/verif/build/exp_'+hashlib.sha256(sys.argv[1].encode()).hexdigest()[:10], ignore_errors=True)" "$WT"
